@@ -30,13 +30,13 @@ ASSUMPTIONS = [
     "steps must raise LenaValueError at construction; integral floats such as 2.0 are outside the alphabet",
     "fill_into is checked for non-negative arguments only (negative ones are documented as unsupported)",
 ]
-NONTRIVIAL_FLOOR = {"quick": 5000, "thorough": 500000}
+NONTRIVIAL_FLOOR = {"quick": 50000, "thorough": 500000}
 
 
 def _dom(tier):
     if tier == "thorough":
         return dict(B=26, S=10, L=52, H=10, LF=12)
-    return dict(B=7, S=4, L=10, H=6, LF=7)
+    return dict(B=12, S=6, L=22, H=8, LF=10)
 
 
 def describe(tier):
@@ -539,7 +539,7 @@ def replay(case):
     return result_violations(res)
 
 LEVEL_TEXT = ("bounded exhaustive exploration: the property's whole stated domain (start, stop in "
-              "{None,-7..7}, step in {None,1..4}, flows of length 0..10; thorough: a superset) is enumerated "
+              "{None,-12..12}, step in {None,1..6}, flows of length 0..22; thorough: -26..26, 1..10, 0..52) is enumerated "
               "and every case executed on the real Slice / Reverse / Chain / CountFrom / RunningChunkBy and "
               "compared with Python's own slicing, reversed, itertools.chain/count and sliding windows")
 LEVEL_NOTE = ("holds for the enumerated domain only; identity of yielded objects is compared; "
